@@ -132,8 +132,9 @@ def run(ctx):
       'everything else is wrapped in single quotes')
     safe_fn = prog.fn('IsKnownShellSafeCharacter')
     var = safe_fn.params[0]['n']
-    safe = charset.reachable_values(safe_fn, var, lambda e: e['k'] == 'ret' and const_value(e.get('e')) == 1)
-    unsafe = charset.reachable_values(safe_fn, var, lambda e: e['k'] == 'ret' and const_value(e.get('e')) == 0)
+    rb = charset.returned_by_byte(safe_fn, var)
+    safe = {b for b, vs in rb.items() if any(v not in (0, None) for v in vs) or None in vs}     # undecidable counts as "may be safe"
+    unsafe = {b for b, vs in rb.items() if 0 in vs or None in vs}
     ctx.check('C16.VS1', safe and safe <= INERT, safe_fn.name, 'safe-set:not-inert:%s' % ''.join(chr(c) for c in sorted(safe - INERT))[:20],
               safe_fn.loc, 'safe set (%d bytes: %s) is within the shell-inert set' % (len(safe), ''.join(chr(c) for c in sorted(safe))))
     ctx.check('C16.VS1', not (safe & unsafe) and len(safe | unsafe) == 256, safe_fn.name, 'safe-set:ambiguous', safe_fn.loc,
